@@ -187,6 +187,9 @@ func (dm *DMap) loadOrCreateFragmentForWrite(part *partitions.Partition) (*fragm
 		if err != nil {
 			return nil, err
 		}
+		if err := verifhook.Fire("write.loaded", dm.s.rt.This().String(), part.ID()); err != nil {
+			return nil, err
+		}
 		f.Lock()
 		select {
 		case <-f.ctx.Done():
